@@ -289,7 +289,7 @@ func (s *Script) IsP2PK() bool {
 		return false
 	}
 
-	if len(parts) == 2 && len(parts[0]) > 0 && parts[1][0] == OpCHECKSIG {
+	if len(parts) == 2 && len(parts[0]) > 0 && len(parts[1]) > 0 && parts[1][0] == OpCHECKSIG {
 		pubkey := parts[0]
 		version := pubkey[0]
 
@@ -346,21 +346,27 @@ func isP2PKHInscriptionHelper(parts [][]byte) bool {
 	if len(parts) < 13 {
 		return false
 	}
-	valid := parts[0][0] == OpDUP &&
-		parts[1][0] == OpHASH160 &&
-		parts[3][0] == OpEQUALVERIFY &&
-		parts[4][0] == OpCHECKSIG &&
-		parts[5][0] == OpFALSE &&
-		parts[6][0] == OpIF &&
-		parts[7][0] == 0x6f && parts[7][1] == 0x72 && parts[7][2] == 0x64 && // op_push "ord"
-		parts[8][0] == OpTRUE &&
-		parts[10][0] == OpFALSE &&
-		parts[12][0] == OpENDIF
+	valid := startsWith(parts[0], OpDUP) &&
+		startsWith(parts[1], OpHASH160) &&
+		startsWith(parts[3], OpEQUALVERIFY) &&
+		startsWith(parts[4], OpCHECKSIG) &&
+		startsWith(parts[5], OpFALSE) &&
+		startsWith(parts[6], OpIF) &&
+		len(parts[7]) >= 3 && parts[7][0] == 0x6f && parts[7][1] == 0x72 && parts[7][2] == 0x64 && // op_push "ord"
+		startsWith(parts[8], OpTRUE) &&
+		startsWith(parts[10], OpFALSE) &&
+		startsWith(parts[12], OpENDIF)
 
 	if len(parts) > 13 {
-		return parts[13][0] == OpRETURN && valid
+		return startsWith(parts[13], OpRETURN) && valid
 	}
 	return valid
+}
+
+// startsWith reports whether a decoded script part is non-empty and begins with
+// the given byte (zero-length PUSHDATA parts are legal and must not be indexed).
+func startsWith(part []byte, b byte) bool {
+	return len(part) > 0 && part[0] == b
 }
 
 // ParseInscription parses the script to
@@ -373,7 +379,7 @@ func (s *Script) ParseInscription() (*InscriptionArgs, error) {
 		return nil, err
 	}
 
-	if !isP2PKHInscriptionHelper(p) {
+	if len(*s) < 25 || !isP2PKHInscriptionHelper(p) {
 		return nil, ErrP2PKHInscriptionNotFound
 	}
 
@@ -409,7 +415,7 @@ func (s *Script) IsMultiSigOut() bool {
 		return false
 	}
 
-	if !isSmallIntOp(parts[0][0]) {
+	if len(parts[0]) == 0 || !isSmallIntOp(parts[0][0]) {
 		return false
 	}
 
